@@ -10,6 +10,8 @@ use serde_json::json;
 
 #[derive(Clone, Debug)]
 struct Case {
+    /// the dump folder already holds the *.csv.tmp files of an aborted whole-chain dump (longer than the new output)
+    dirty: bool,
     base: u64,   // height of first indexed block (0 for dense chains)
     n: usize,    // number of blocks
     start: Option<u64>,
@@ -38,7 +40,10 @@ pub fn run() -> Report {
         }
         for (s, e) in opts {
             for cb in CALLBACKS {
-                cases.push(Case { base: 0, n: t as usize + 1, start: s, end: e, cb });
+                cases.push(Case { dirty: false, base: 0, n: t as usize + 1, start: s, end: e, cb });
+                if matches!(cb, "csvdump" | "unspentcsvdump" | "balances") && (s.is_some() || e.is_some()) && t >= 2 {
+                    cases.push(Case { dirty: true, base: 0, n: t as usize + 1, start: s, end: e, cb });
+                }
             }
         }
     }
@@ -55,11 +60,11 @@ pub fn run() -> Report {
                 if cb == "simplestats" && h >= 13_440_000 {
                     continue; // reward shift >= 64: C15's business
                 }
-                cases.push(Case { base: b, n: 5, start: s, end: e, cb });
+                cases.push(Case { dirty: false, base: b, n: 5, start: s, end: e, cb });
             }
         }
     }
-    rep.rule = "every accepted (tip T, --start, --end) combination x 5 callbacks on dense chains, plus range shapes on sparse indexes at VarInt-width / halving / >32-bit heights; non-trivial = distinct (T, options, callback) whose run delivered at least one block".into();
+    rep.rule = "every accepted (tip T, --start, --end) combination x 5 callbacks on dense chains (file-producing callbacks also with the leftovers of an aborted whole-chain dump in the dump folder), plus range shapes on sparse indexes at VarInt-width / halving / >32-bit heights; non-trivial = distinct (T, options, callback) whose run delivered at least one block".into();
     rep.bound = json!({"max_tip": max_t, "callbacks": 5, "cases": cases.len()});
     let root = refmodel::world::scratch_root();
     let btc = coin("bitcoin");
@@ -75,12 +80,39 @@ pub fn run() -> Report {
             let s = c.start.unwrap_or(0);
             let e = c.end.map(|e| e.min(tip)).unwrap_or(tip);
             let spec = RunSpec::new("bitcoin", c.cb).range(c.start, c.end);
-            let r = match wk.world_run(&world, &spec) {
-                Ok(r) => r,
-                Err(m) => {
-                    acc.machinery(m);
-                    return;
+            if let Err(m) = wk.materialise(&world) {
+                acc.machinery(m);
+                return;
+            }
+            let r = if c.dirty {
+                // leftovers of an aborted dump of the whole chain: the model's whole-chain files under their tmp names
+                wk.fresh_dump();
+                let whole = refmodel::model::csvdump(btc, &all);
+                let (u, _, _, _) = refmodel::model::utxo_set(btc, &all);
+                let join = |hdr: &str, rows: std::collections::BTreeSet<String>| format!("{}\n{}\n", hdr, rows.into_iter().collect::<Vec<_>>().join("\n"));
+                let files: Vec<(&str, String)> = vec![
+                    ("blocks.csv.tmp", whole.blocks.clone()),
+                    ("transactions.csv.tmp", whole.transactions.clone()),
+                    ("tx_in.csv.tmp", whole.tx_in.clone()),
+                    ("tx_out.csv.tmp", whole.tx_out.clone()),
+                    ("unspent.csv.tmp", join(refmodel::model::UNSPENT_HEADER, refmodel::model::unspent_rows(&u))),
+                    ("balances.csv.tmp", join(refmodel::model::BALANCES_HEADER, refmodel::model::balances_rows(&u))),
+                ];
+                for (n, t) in files {
+                    // only the tmp files of this callback: the others would (rightly) remain in the folder
+                    let mine = match c.cb {
+                        "csvdump" => !n.starts_with("unspent") && !n.starts_with("balances"),
+                        "unspentcsvdump" => n.starts_with("unspent"),
+                        _ => n.starts_with("balances"),
+                    };
+                    if mine {
+                        std::fs::write(wk.dump().join(n), format!("{}{}", t, t)).unwrap();
+                    }
                 }
+                acc.count("dirty-dump-folder", 1);
+                wk.run_keep(&spec)
+            } else {
+                wk.run(&spec)
             };
             acc.states += 1;
             acc.transitions += 1;
